@@ -161,7 +161,7 @@ def ensure_facts(configs=ALL_CONFIGS, verbose=False, force=False):
             if "error[E" not in err and "error:" not in err:
                 raise RuntimeError("driver failure:\n" + err)
         json.dump(meta, open(metap, "w"))
-        _prune(os.path.join(BUILD, "facts"), keep=6)
+        _prune(os.path.join(BUILD, "facts"), keep=int(os.environ.get("CTAP_FACTS_KEEP", "6")))
         return outdir, meta
     finally:
         fcntl.flock(lockf, fcntl.LOCK_UN)
